@@ -394,6 +394,12 @@ func runCheck(prop, tier string) int {
 		for e := range fv.VC.usedExtern {
 			assume["extern contract assumed: "+e] = true
 		}
+		for e := range fv.VC.usedTrusted {
+			assume["trusted contract assumed (body not verified): "+e] = true
+		}
+		for e := range fv.VC.usedOther {
+			assume["contract relied on, proved under another property or not at all: "+e] = true
+		}
 		for a := range fv.VC.usedAxioms {
 			assume["axiom assumed: "+a] = true
 		}
